@@ -157,6 +157,9 @@ func isPSIComplete(ps []*Packet) bool {
 	// Pointer filler bytes
 	i.Skip(int(b))
 
+	// A payload that holds nothing but the pointer field (and filler bytes) is not complete yet: at least one section
+	// has to be there
+	var sections int
 	for i.HasBytesLeft() {
 
 		// Get PSI table ID
@@ -178,7 +181,8 @@ func isPSIComplete(ps []*Packet) bool {
 		}
 
 		i.Skip(int(binary.BigEndian.Uint16(bs) & 0x0fff))
+		sections++
 	}
 
-	return i.Len() >= i.Offset()
+	return sections > 0 && i.Len() >= i.Offset()
 }
